@@ -529,6 +529,35 @@ def _freeze(val):
 _imprecise = set()
 
 
+def _element_data_only(prog, body, discr):
+    """the condition is a function of the value of the iterated element alone (no flag, counter, position or
+    unknown): both outcomes are then possible at every position, and the two branches are not an artefact of the extraction"""
+    from . import prov as pv
+
+    try:
+        es = pv.prov(prog, body, discr)
+    except Exception:
+        return False
+    if not es:
+        return False
+    for e in es:
+        subs = pv.subterms(e)
+        if not any(x[0] == "elem" for x in subs if isinstance(x, tuple)):
+            return False
+        for x in subs:
+            if not isinstance(x, tuple):
+                continue
+            if x[0] in ("var", "?"):
+                return False
+            if x[0] == "param" and not any(y[0] == "elem" and x in pv.subterms(y) for y in subs if isinstance(y, tuple)):
+                return False
+            if x[0] == "field" and x[2] == "0" and isinstance(x[1], tuple) and x[1][0] == "elem" and "enumerate" in repr(x[1][1]):
+                return False
+            if x[0] == "call" and not any(y[0] == "elem" for a in x[2] for y in pv.subterms(a) if isinstance(y, tuple)) and x[2]:
+                return False
+    return True
+
+
 def imprecise():
     """(function path, line) of branches on a bool that is not a state cell, met during the extractions since clear_cache()"""
     return sorted(_imprecise)
@@ -847,7 +876,7 @@ def sink_matrix(prog, body, sink, init=None, end_bb=None, depth=0):
                         succs = one or [t["otherwise"]]
                     elif v == "F" and zero:
                         succs = zero
-                    else:
+                    elif not _element_data_only(prog, body, t["discr"]):
                         _imprecise.add((body.path, body.blocks[bb]["term"].get("line")))
             for r, v2 in outs:
                 for sc in succs:
